@@ -490,6 +490,7 @@ impl<T: Copy> Buffer<T> {
         {
             s.verif.consumed += n as u64;
             crate::verif::add_activity(n);
+            crate::verif::consumed(n);
         }
         cv.notify_all();
     }
